@@ -126,7 +126,9 @@ func c18FailingCalls(lab *srvLab, sc dyn.Schema, reconnect bool) (*callLog, stri
 			wedged = true
 			return
 		}
-		if wantErr && err == nil {
+		if wantErr && err == nil && !strings.HasSuffix(kind, "(cancelled context)") {
+			// (a call made with a context that is already cancelled may still be answered first: either outcome is fine,
+			// what matters is that it returns and leaves the client usable)
 			note(kind + " succeeds where an error is expected")
 		}
 		if !wantErr && err != nil {
@@ -155,13 +157,13 @@ func c18FailingCalls(lab *srvLab, sc dyn.Schema, reconnect bool) (*callLog, stri
 		step("Connect", connect, false)
 	}
 	// a cancelled context
-	step("Transact", func() error {
+	step("Transact (cancelled context)", func() error {
 		ctx, c := context.WithCancel(context.Background())
 		c()
 		_, err := cl.Transact(ctx, ovsdb.Operation{Op: "select", Table: "T", Where: []ovsdb.Condition{}})
 		return err
 	}, true)
-	step("Monitor", func() error {
+	step("Monitor (cancelled context)", func() error {
 		ctx, c := context.WithCancel(context.Background())
 		c()
 		_, err := cl.Monitor(ctx, cl.NewMonitor(client.WithTable(lab.db.New("U"))))
